@@ -18,7 +18,7 @@ HOOKS = {
 
 ENGINES = [
     {'name': 'vf', 'path': 'vf/harness.py',
-     'serves_properties': ['C01', 'C02', 'C03', 'C04', 'C05', 'C07', 'C08', 'C09', 'C13', 'C15', 'C16', 'C20'],
+     'serves_properties': ['C01', 'C02', 'C03', 'C04', 'C05', 'C06', 'C07', 'C08', 'C09', 'C13', 'C15', 'C16', 'C20'],
      'kind_free_text': ('runtime monitoring driver: 16 worker processes import the real '
                         'openhtf from /repo, run enumerated + seeded cases, monitors '
                         'decide each property from observed events; witnesses are '
@@ -184,5 +184,18 @@ CHECKS = {
         'note': ('preemption bound 1 (2 sampled for double aborts) over reached lines; known findings F6/F18 (handler on the main '
                  'thread while execute() is outside _executor.wait()) are keyed by region of Test.execute in known_findings.json; '
                  'real-SIGINT schedules run in child processes because a self-deadlocked main thread cannot be abandoned'),
+    },
+    'C06': {
+        'level': 'exploration',
+        'technique': 'runtime model-based monitoring: per-operation snapshots of (outcome, marginal, value) taken inside the phase body through the public PhaseState, compared with a reference measurement that applies the real validators to its own recorded value',
+        'text': ('histories of scalar sets, coordinate sets (overrides, wrong-length and unhashable coordinates), undeclared '
+                 'names and dimensioned-without-coordinates over 14 declarations (scalar/1-D/2-D; marginal ranges, regex, '
+                 'percent, custom, raising and conditional validators; precision and transform) with values from ints, floats '
+                 'around limits, None, NaN, +-inf, strings, bools; all histories of length <= 2/3 over a reduced alphabet plus '
+                 'seeded ones up to length 8; after every operation and in the final PhaseRecord: recorded value = transform of '
+                 'the last assignment per coordinate in first-assignment order, outcome/marginal as decided by the validators on '
+                 'that value, rejections change nothing, raising validators give FAIL and surface at the assignment (scalar) or '
+                 'as a phase error at phase end (dimensioned), nothing stays PARTIALLY_SET'),
+        'note': 'validator verdicts are taken from deep copies of the declared validators (their own correctness is C07)',
     },
 }
